@@ -104,7 +104,7 @@ def run_verus(force=False):
         contracts = sorted(walk(os.path.join(VERIF, 'contracts'), ('.vx',)))
         mp = os.path.join(wd, 'map.json')
         wcmd = [sys.executable, os.path.join(VERIF, 'tools', 'weave.py'), os.path.join(wd, 'src'), '--contracts'] + contracts + \
-               ['--extra', 'vx=' + os.path.join(VERIF, 'vxlib', 'vx.rs'), 'vspec=' + os.path.join(VERIF, 'spec', 'vspec.rs'), 'vxl=' + os.path.join(VERIF, 'spec', 'vxl.rs'), '--map', mp]
+               ['--extra', 'vx=' + os.path.join(VERIF, 'vxlib', 'vx.rs'), 'vspec=' + os.path.join(VERIF, 'spec', 'vspec.rs'), 'vxl=' + os.path.join(VERIF, 'spec', 'vxl.rs'), 'vck=' + os.path.join(VERIF, 'spec', 'vck.rs'), '--map', mp]
         wp = subprocess.run(wcmd, capture_output=True, text=True)
         wmap = json.load(open(mp)) if os.path.exists(mp) else {'fns': [], 'specs': [], 'problems': [{'kind': 'weaver_crash', 'what': wp.stderr[-2000:]}]}
         vcmd = ['verus', 'src/lib.rs', '--crate-type', 'lib', '--crate-name', 'etherparse', '--edition', '2021',
